@@ -240,7 +240,7 @@ def require_tlc_ok(r, what):
         raise Infra('%s: TLC failed (rc=%s): %s\n%s' % (what, r.rc, r.errors[:3], r.out[-3000:]))
 
 
-def validate_trace(module, cfg, path, *, chunk=15000, timeout=900, par=8, workdir=None):
+def validate_trace(module, cfg, path, *, chunk=15000, timeout=900, par=8, workdir=None, split_on=None):
     """Trace validation: TLC evaluates the named invariants of <module> on every line of the ndjson file.
     Returns (violations, stats): violations = [(invariant, line_index0, line_obj)], stats = dict(events, tlc_wall)."""
     from concurrent.futures import ThreadPoolExecutor
@@ -251,12 +251,19 @@ def validate_trace(module, cfg, path, *, chunk=15000, timeout=900, par=8, workdi
         return [], dict(events=0, wall=0.0, chunks=0)
     d = scratch('verif-t-')
     jobs = []
-    for ci, start in enumerate(range(0, n, chunk)):
-        part = lines[start:start + chunk]
+    start, ci = 0, 0
+    while start < n:
+        end = min(n, start + chunk)
+        if split_on:
+            # sequences judged with a folded model state must not be cut: extend the chunk to the next sequence start
+            while end < n and split_on not in lines[end]:
+                end += 1
+        part = lines[start:end]
         fp = os.path.join(d, 'chunk%d.ndjson' % ci)
         with open(fp, 'w') as f:
             f.write('\n'.join(part) + '\n')
         jobs.append((start, len(part), fp))
+        start, ci = end, ci + 1
 
     def one(job):
         start, cnt, fp = job
